@@ -147,7 +147,7 @@ def std_text(rng, plat):
 def run(tier, seed):
     rng = random.Random(seed * 122949829 + 1)
     mcs = [core.mc("MC_AceText"), core.mc("MC_PortSem"), core.mc("MC_AddrSem")]
-    n = 12000 if tier == "quick" else 400000
+    n = 12000 if tier == "quick" else 150000
     jobs = []
     for t in range(1, n + 1):
         plat = rng.choice(["ios", "nxos"])
